@@ -1,7 +1,7 @@
 ENGINES = [
     {'name': 'E1-enum', 'path': 'mc/engine_enum.py', 'serves_properties': ['C01', 'C02', 'C04', 'C05', 'C06'],
      'kind_free_text': 'sharded exhaustive enumeration of a finite input/configuration space of the real code against a reference model'},
-    {'name': 'E2-bfs', 'path': 'mc/engine_bfs.py', 'serves_properties': ['C04', 'C05'],
+    {'name': 'E2-bfs', 'path': 'mc/engine_bfs.py', 'serves_properties': ['C03', 'C04', 'C05'],
      'kind_free_text': 'explicit-state breadth-first search over live implementation objects (state = replayable operation history, canonicalised from the complete vars() of the objects), level-parallel'},
 ]
 NOTES = 'All checks are bounded exhaustive explorations of the real mido code (imported from the /repo working tree) against independent reference models; see DESIGN.md.'
@@ -33,3 +33,9 @@ CHECKS['C06'] = dict(
     technique='exhaustive enumeration of (prefix, message) pairs, message concatenations and real-time insertions into sysex, executed on the real parser',
     text='Every prefix string of length <= 4 (5 thorough) over the 15-symbol byte-class alphabet and every proper prefix of every sample message, combined with 29 sample messages covering all 18 types; every concatenation of up to 3 messages; every multiset of up to 3 insertion positions strictly inside a sysex encoding x all 8 real-time byte values. The oracle is the statement itself.',
     note='Messages limited to 29 representatives (one per type/length class/extreme); prefixes to the class alphabet.')
+
+CHECKS['C03'] = dict(
+    engine='E2-bfs', category='model_checking', design_ref='DESIGN.md 5/C03',
+    technique='explicit-state search to a fixed point over live Message objects (setattr/delattr/+=/copy transitions, constructor/from_dict/from_str probes at every state) against a reference validator',
+    text='For each of the 18 message types the set of message states reachable through the checked API is explored to a fixed point on real objects; every transition (accepted or rejected assignment, deletion, data +=, copy with overrides, construction, from_dict, from_str) over boundary and ill-typed value alphabets is judged by a reference validator typed from docs/message_types.rst: result valid, rejected operations raise ValueError/TypeError/AttributeError and leave the object unchanged, type and key set never change.',
+    note='Values strictly between the range limits are represented by the midpoint; bool is treated as an integer; sysex payload growth expanded to length 3.')
